@@ -29,14 +29,26 @@ REQUIRED_LEMMAS = {"ImathVerif.Lemmas.C08Lemmas": ["V2_length_eq", "V3_length_eq
 SHAPE = "ImathVerif.Props.C08Shape"
 SHAPE_REQUIRED = ["peel_guard", "peel_abs", "peel_max"] + ["%s_%s_shape" % (v, f) for v in ("V2", "V3", "V4") for f in ["length"] + FORMS]
 
+# one PROVED rounding statement (Props/C08Rounding.lean): direct branch of Vec2::length() in the standard model, on the extracted tree run over rounded reals
+ROUNDING = "ImathVerif.Props.C08Rounding"
+ROUNDING_REQUIRED = ["RoundModel.bounds", "direct2_rounding", "V2_length_direct_eq", "V2_length_direct_rounded"]
+
 # calibration of the measured residue: clean-tree maxima over seeds 1-3 (quick: 2, thorough: 24 random mantissas per exponent), classes
 # derived from the REFERENCE dot.  The bounds (harness) are these maxima + 1; the drift obligation allows + DRIFT.
-CALIBRATED = {"quick": {"length_ulps": {"tiny-branch/subnormal-norm": 1.36, "tiny-branch/normal-norm": 2.45, "direct/near-threshold": 1.66, "direct": 1.62,
-                                        "scaled-branch/squares-overflow": 2.56}, "unit_err_eps": {"*": 1.73}, "ratio_err_u": {"*": 3.88}},
-              "thorough": {"length_ulps": {"tiny-branch/subnormal-norm": 1.48, "tiny-branch/normal-norm": 2.87, "direct/near-threshold": 1.93, "direct": 1.74,
-                                           "scaled-branch/squares-overflow": 2.85}, "unit_err_eps": {"*": 1.73}, "ratio_err_u": {"*": 3.94}}}
-BOUNDS = {"length_ulps": {"tiny-branch/subnormal-norm": 2.5, "tiny-branch/normal-norm": 3.9, "direct/near-threshold": 3.0, "direct": 2.8,
-                          "scaled-branch/squares-overflow": 3.9}, "unit_err_eps": 2.8, "ratio_err_u": 5.0}      # = harness/corr/c08_residue.cpp
+CALIBRATED = {
+    "quick": {"length_ulps": {"tiny-branch/subnormal-norm": 1.37, "tiny-branch/normal-norm": 2.46, "direct/near-threshold": 1.54, "direct": 1.35,
+                              "scaled-branch/squares-overflow": 2.62},
+              "length_ulps_adv": {"two-maxima": 1.44, "max-subnormal": 0.87},
+              "unit_err_eps": {"direct": 1.32, "tiny-branch": 1.72, "scaled-overflow": 1.64},
+              "ratio_err_u": {"direct": 3.04, "tiny-branch": 3.73, "scaled-overflow": 4.08}},
+    "thorough": {"length_ulps": {"tiny-branch/subnormal-norm": 1.49, "tiny-branch/normal-norm": 2.81, "direct/near-threshold": 2.08, "direct": 1.71,
+                                 "scaled-branch/squares-overflow": 2.80},
+                 "length_ulps_adv": {"two-maxima": 1.50, "max-subnormal": 1.20},
+                 "unit_err_eps": {"direct": 1.72, "tiny-branch": 1.70, "scaled-overflow": 1.69},
+                 "ratio_err_u": {"direct": 3.43, "tiny-branch": 3.87, "scaled-overflow": 3.90}}}
+# bounds = the largest clean-tree maximum of ANY calibration run so far (1.49 / 2.87 / 2.08 / 1.74 / 2.85 ulps, 1.73 eps, 4.08 u) + 1, rounded up to 0.1
+BOUNDS = {"length_ulps": {"tiny-branch/subnormal-norm": 2.5, "tiny-branch/normal-norm": 3.9, "direct/near-threshold": 3.1, "direct": 2.8,
+                          "scaled-branch/squares-overflow": 3.9}, "unit_err_eps": 2.8, "ratio_err_u": 5.1}      # = harness/corr/c08_residue.cpp
 DRIFT = 0.5
 
 _lattice_cache = {}
@@ -80,25 +92,44 @@ def make_search(chk, binary):
     return search
 
 
-def tv_leaf_coverage(chk, binary, lindex):
-    """C++-side TV of length() with RECORDED leaf coverage (audit W5): every leaf reachable at double with the real limits is visited
-    (small integer components at three scales) and the real code equals the extracted tree bit for bit there."""
-    rc, out = lib.sh([binary, "tvwit"], timeout=600)
+def tv_leaf_coverage(chk, binary, index, tag, idx_deps=()):
+    """C++-side TV with RECORDED leaf coverage (audit W5, r2 N3), at double AND float: every leaf reachable with the real limits is visited
+    (small integer components incl. the zero vector, at three scales) and the real instantiation equals the extracted tree bit for bit.
+    tag "leaf": every non-literal leaf of V2/V3/V4.length + the literal-0 leaf under the underflow guard.
+    tag "c08": EVERY leaf of every entry (2/2 for the branching normalize forms: the `length() == 0` leaf is reached by the zero vector)."""
+    cmd = [binary, "tvwit"]
+    for d in idx_deps:
+        cmd += ["--idx", d]
+    rc, out = lib.sh(cmd, timeout=600)
     rows = {}
     for l in out.split("\n"):
-        m = re.match(r"TVWIT (\S+) leaves=(\d+) hit=(\d+) nonconst_leaves=(\d+) nonconst_hit=(\d+) const_hit=(\d+) evaluations=(\d+) mismatches=(\d+)", l)
+        m = re.match(r"TVWIT (\S+) (\w+) leaves=(\d+) hit=(\d+) nonconst_leaves=(\d+) nonconst_hit=(\d+) const_leaves=(\d+) const_hit=(\d+) evaluations=(\d+) mismatches=(\d+)", l)
         if m:
-            rows[m.group(1)] = dict(zip(("leaves", "hit", "nonconst_leaves", "nonconst_hit", "const_hit", "evaluations", "mismatches"), map(int, m.groups()[1:])))
-    ok = rc == 0 and len(rows) == len(lindex) and all(v["mismatches"] == 0 and v["nonconst_hit"] == v["nonconst_leaves"] and v["const_hit"] >= 1 for v in rows.values())
-    chk.oblige("tv:leaf: real length() at double = extracted tree, bitwise, on EVERY leaf reachable with the real limits (%s; the literal-0 leaf under the "
-               "underflow guard; under dot > max it needs max < 0)" % ", ".join("%s %d/%d" % (k, v["nonconst_hit"], v["nonconst_leaves"]) for k, v in sorted(rows.items())),
-               "translation-validation", ok, None if ok else out[-600:])
+            rows[m.group(1) + "@" + m.group(2)] = dict(zip(("leaves", "hit", "nonconst_leaves", "nonconst_hit", "const_leaves", "const_hit", "evaluations", "mismatches"),
+                                                           map(int, m.groups()[2:])))
+    want = set(d["name"] + "@" + t for d in index for t in ("double", "float"))
+    paths = {d["name"]: int(d.get("paths", -1)) for d in index}
+    if tag == "leaf":
+        full = lambda k, v: v["nonconst_hit"] == v["nonconst_leaves"] and v["const_hit"] >= 1
+        text = ("tv:leaf: real length() = extracted tree, bitwise, at double AND float on EVERY leaf reachable with the real limits (%s non-literal leaves per type; "
+                "the literal-0 leaf under the underflow guard; under dot > max it needs max < 0)" %
+                ", ".join("%s %d/%d" % (k.split("@")[0], v["nonconst_hit"], v["nonconst_leaves"]) for k, v in sorted(rows.items()) if k.endswith("@float")))
+    else:
+        full = lambda k, v: v["hit"] == v["leaves"]
+        nbr = sum(1 for k, v in rows.items() if v["leaves"] > 1)
+        text = ("tv:c08: real code = extracted tree, bitwise, at double AND float on EVERY leaf of every entry: %d branching (entry, type) pairs reach 2/2 leaves "
+                "(the zero vector takes the `length() == 0` leaf), %d rows in all" % (nbr, len(rows)))
+    ok = rc == 0 and set(rows) == want and all(v["mismatches"] == 0 and v["leaves"] == paths[k.split("@")[0]] and full(k, v) for k, v in rows.items())
+    chk.oblige(text, "translation-validation", ok, None if ok else out[-600:])
     chk.count(sum(v["evaluations"] for v in rows.values()), sum(v["evaluations"] for v in rows.values()))
-    chk.extra.setdefault("tv", {})["leaf_coverage_double"] = rows
+    chk.extra.setdefault("tv", {})["%s_per_leaf_double_and_float" % tag] = rows if tag == "leaf" else {
+        "rows": len(rows), "branching_rows_with_all_leaves": sum(1 for v in rows.values() if v["leaves"] > 1 and v["hit"] == v["leaves"]),
+        "evaluations": sum(v["evaluations"] for v in rows.values()), "mismatches": sum(v["mismatches"] for v in rows.values())}
     if not ok:
         fl = [l for l in out.split("\n") if l.startswith("TVWITFAIL")]
-        chk.fail("tv:leaf", "tv:leaf:leaf-coverage", "per-leaf translator validation of length() failed or does not reach every non-literal leaf",
-                 {"rows": rows, "failures": fl[:5], "replay_cmd": ".build/bin/sym_leaf tvwit"}, bool(fl))
+        short = sorted(k for k, v in rows.items() if not full(k, v)) + sorted(want - set(rows))
+        chk.fail("tv:" + tag, "tv:%s:leaf-coverage" % tag, "per-leaf translator validation failed or does not reach every required leaf",
+                 {"rows_short_of_full_coverage_or_missing": short[:12], "failures": fl[:5], "replay_cmd": ".build/bin/sym_%s tvwit" % tag}, bool(fl))
 
 
 def _rat(s):
@@ -279,19 +310,64 @@ def residue(chk, binary):
                        "larger of the two adjacent bounds applies",
             "bounds": dict(BOUNDS, how_fixed="clean-tree maximum over seeds 1-3 (2 and 24 mantissas per exponent) + 1, calibrated on /repo 16a5ca8 with "
                            "reference-derived classes", calibrated_maxima=CALIBRATED[chk.tier], drift_allowance=DRIFT),
-            "measured_this_run": measured, "branch_probe": branch, "constructed_threshold_probes": probes, "per_class": agg}
+            "measured_this_run": {k: v for k, v in measured.items() if not k.endswith("_by_form")},
+            "measured_per_branch_and_form": {k: v for k, v in measured.items() if k.endswith("_by_form")},
+            "branch_probe": branch, "constructed_threshold_probes": probes, "per_class": {k: v for k, v in agg.items() if not k.endswith("_by_form")}}
+        # ---- named adversarial classes of the scaled algorithm (audit r2 N6): reach
+        adv = agg.get("length_ulps_adv", {})
+        thin_adv = ["%s:%s=%d" % (c, k, adv.get(c, {}).get(k, {}).get("count", 0)) for c in ("two-maxima", "max-subnormal")
+                    for k in ("Vec%d<%s>" % (n, t) for n in (2, 3, 4) for t in ("float", "double")) if adv.get(c, {}).get(k, {}).get("count", 0) < 100]
+        chk.oblige("reach: named adversarial classes of the scaled algorithm, every type x dimension >= 100 vectors each: two-maxima (2..N components equal to "
+                   "+-max, the rest max*2^-(p/2+j), j = -2..2) and max-subnormal (subnormal maximum, the others pred(max) / max/2 / denorm_min), judged like every "
+                   "vector (ulp bound, zero only for zero, normalize never NaN/inf) and with their own drift class", "residue", not thin_adv, thin_adv or None)
+        if thin_adv:
+            chk.fail("reach: named adversarial", "residue:reach:adversarial-classes", "the named adversarial classes are no longer generated for every type x dimension",
+                     {"thin": thin_adv, "replay_cmd": replay}, False)
         # ---- drift (audit S6): the measured maxima may not exceed the calibration by more than DRIFT although the bound has 1 ulp of room
-        drifts = []
-        for metric, cal in CALIBRATED[chk.tier].items():
-            for cls, v in measured.get(metric, {}).items():
-                c = cal.get(cls, cal.get("*"))
-                if c is not None and v > c + DRIFT:
+        drifts, ndrift = [], 0
+        calt = CALIBRATED[chk.tier]
+        for metric, classes in measured.items():
+            # per-form metrics (`unit_by_form`, `ratio_by_form`, class "<branch>/<form>") are calibrated by their branch: on the clean tree the six
+            # forms give bit-identical results, so a form that exceeds its branch's calibration has diverged from its siblings
+            cal = calt.get({"unit_by_form": "unit_err_eps", "ratio_by_form": "ratio_err_u"}.get(metric, metric))
+            if cal is None:
+                continue
+            for cls, v in classes.items():
+                c = cal.get(cls.split("/")[0] if metric.endswith("_by_form") else cls)
+                if c is None:
+                    drifts.append((metric, cls, v, float("nan")))      # a class without calibration is a failure, not a silent pass
+                    continue
+                ndrift += 1
+                if v > c + DRIFT:
                     drifts.append((metric, cls, v, c))
-        chk.oblige("residue: drift: every measured per-class maximum is within %.1f of its calibrated clean-tree maximum (the bounds leave 1.0: a regression "
-                   "that costs less than the slack is still reported)" % DRIFT, "residue", not drifts and bool(measured),
+        # the six normalize forms are bit-identical on the clean tree: within one (type, dimension, branch) their measured maxima must coincide
+        spreads = []
+        for metric in ("unit_by_form", "ratio_by_form"):
+            groups = {}
+            for cls, per in agg.get(metric, {}).items():
+                for vec, d in per.items():
+                    groups.setdefault((vec, cls.split("/")[0]), {})[cls.split("/")[1]] = d
+            for (vec, br), forms in groups.items():
+                lo = min(forms.items(), key=lambda kv: kv[1]["max"])
+                hi = max(forms.items(), key=lambda kv: kv[1]["max"])
+                if len(forms) != 6 or hi[1]["max"] - lo[1]["max"] > 0.01:
+                    spreads.append((metric, vec, br, hi[0], hi[1]["max"], lo[0], lo[1]["max"], hi[1]["worst_input"]))
+        ngroups = sum(len(set((vec, cls.split("/")[0]) for cls, per in agg.get(mt, {}).items() for vec in per)) for mt in ("unit_by_form", "ratio_by_form"))
+        chk.oblige("residue: drift: the six normalize forms have the SAME measured unit / ratio maxima within every (type, dimension, branch) group (%d groups; on the "
+                   "clean tree they are bit-identical, so any spread means one form computes differently from its siblings)" % ngroups, "residue",
+                   not spreads and ngroups == 36, ["%s %s %s: %s %.3f vs %s %.3f" % sp[:7] for sp in spreads[:6]] or None)
+        for metric, vec, br, fhi, vhi, flo, vlo, worst in spreads:
+            chk.fail("residue: drift: the six normalize forms", "residue:drift:forms-spread:%s:%s:%s" % (metric, vec, br),
+                     "%s of %s on the %s branch: form %s measures %.3f, form %s %.3f — the forms no longer compute the same thing at rounding level" % (
+                         metric, vec, br, fhi, vhi, flo, vlo), {"metric": metric, "instance": vec, "branch": br, "worst_form": fhi, "worst_input_hex_floats": worst,
+                                                             "replay_cmd": replay}, True)
+        chk.oblige("residue: drift: every measured maximum — length per reference class and per named adversarial class, unit / ratio error per branch AND per "
+                   "(branch, normalize form) — is within %.1f of its calibrated clean-tree maximum (%d classes; the bounds leave 1.0: a regression that costs "
+                   "less than the slack is still reported)" % (DRIFT, ndrift), "residue", not drifts and ndrift >= 5 + 2 + 6 + 36,
                    ["%s[%s] measured %.3f calibrated %.2f" % d for d in drifts] or None)
         for metric, cls, v, c in drifts:
             worst = max(agg[metric][cls].items(), key=lambda kv: kv[1]["max"])
+            c = -1.0 if c != c else c
             chk.fail("residue: drift", "residue:drift:%s:%s" % (metric, cls),
                      "measured maximum of %s in class %s is %.3f, more than %.1f above the calibrated clean-tree maximum %.2f (still inside the bound): "
                      "accuracy regression below the bound, or re-calibrate CALIBRATED in tools/props/c08.py" % (metric, cls, v, DRIFT, c),
@@ -302,10 +378,25 @@ def residue(chk, binary):
         chk.fail("residue", "residue:run", "residue harness failed to run", {"output": out[-2000:]}, False)
 
 
+SLICE = 64
+BLOCK = 1 << 14
+
+
 def exhaustive(chk, binary):
-    """thorough tier (audit S3): ALL positive finite floats x <= max/2 in the single-component and all-equal families"""
-    replay = ".build/bin/c08_residue %d exhaustive %d" % (chk.seed, lib.NCPU)
-    rc, out = lib.sh([binary, str(chk.seed), "exhaustive", str(lib.NCPU)], timeout=6000)
+    """(audit S3, r2 N1) the six float families over ALL positive finite floats x <= max/2 — thorough tier — or, in the quick tier, over a SLICE:
+    of the blocks of 2^14 consecutive floats those with block number = seed (mod 64): every binade is visited 8 times, 1/64 of all floats, a
+    different 1/64 for each seed, so that every run leaves evidence of this sweep."""
+    full = 0x7EFFFFFF
+    if chk.thorough:
+        args, expect, what = [str(lib.NCPU)], full, "ALL %d positive finite floats x <= max/2" % full
+    else:
+        off = chk.seed % SLICE
+        expect = sum(min(BLOCK, full - b * BLOCK) for b in range(off, (full + BLOCK - 1) // BLOCK, SLICE))
+        args, what = [str(lib.NCPU), str(SLICE), str(off)], ("SLICE %d/%d of the positive finite floats x <= max/2 (blocks of 2^14 consecutive floats with block "
+                                                             "number = %d mod %d: %d floats, 8 blocks in every binade; the thorough tier visits all %d)" % (
+                                                                 1, SLICE, off, SLICE, expect, full))
+    replay = ".build/bin/c08_residue %d exhaustive %s" % (chk.seed, " ".join(args))
+    rc, out = lib.sh([binary, str(chk.seed), "exhaustive"] + args, timeout=6000)
     m = re.search(r"RESIDUE mode=exhaustive seed=\d+ vectors=(\d+) evals=(\d+) failures=(\d+)", out)
     fams = {}
     for l in out.split("\n"):
@@ -316,18 +407,20 @@ def exhaustive(chk, binary):
             for c in re.finditer(r"len\[(\S+?)\]=([\d.]+)/n=(\d+)\((\w+)\)", mm.group(11)):
                 d["length_max_ulps"][c.group(1)] = {"max": float(c.group(2)), "count": int(c.group(3)), "worst_bits": c.group(4)}
             fams["Vec%sf %s" % (mm.group(1), mm.group(2))] = d
-    full = 0x7EFFFFFF
-    ok = rc == 0 and m is not None and int(m.group(3)) == 0 and len(fams) == 6 and all(d["vectors"] == full for d in fams.values())
-    chk.oblige("exhaustive: ALL %d positive finite floats x <= max/2 in Vec2f(x,0), Vec3f(0,x,0), Vec4f(0,0,0,x) and (x,x), (x,x,x), (x,x,x,x) "
+    ok = rc == 0 and m is not None and int(m.group(3)) == 0 and len(fams) == 6 and all(d["vectors"] == expect for d in fams.values())
+    name = "exhaustive" if chk.thorough else "exhaustive-slice"
+    chk.oblige("%s: %s in each of Vec2f(x,0), Vec3f(0,x,0), Vec4f(0,0,0,x) and (x,x), (x,x,x), (x,x,x,x) "
                "(signs from the low bits): length() within the class bound of |x| resp. |x|*sqrt(N), never 0 / NaN / inf; normalize() and normalized() on "
-               "every x (the other four forms on every 8th block of 2^20): signs, zeros kept, unit length (single component: within 1 eps), ratio" % full,
+               "every x (the other four forms on every 8th visited block): signs, zeros kept, unit length (single component: within 1 eps), ratio" % (name, what),
                "residue", ok, None if ok else out[-600:])
     if m:
         chk.count(int(m.group(2)), int(m.group(2)))
-    chk.extra["exhaustive_float_families"] = fams
-    seen = _report_fails(chk, out, "exhaustive", lambda what: "exhaustive", replay)
+    chk.extra["exhaustive_float_families"] = {"mode": "all floats" if chk.thorough else "slice %d mod %d of the blocks of 2^14 floats" % (chk.seed % SLICE, SLICE),
+                                              "floats_per_family": expect, "of": full, "families": fams}
+    seen = _report_fails(chk, out, name, lambda what: name, replay)
     if not ok and not seen:
-        chk.fail("exhaustive", "exhaustive:run", "the exhaustive float sweep did not run to completion", {"output": out[-1500:]}, False)
+        chk.fail(name, name + ":run", "the exhaustive float sweep did not run to completion / did not visit the expected number of floats",
+                 {"expected_per_family": expect, "got": {k: v["vectors"] for k, v in fams.items()}, "output": out[-1500:]}, False)
 
 
 def make_shape_search(chk, rbin, bins):
@@ -355,14 +448,17 @@ def make_shape_search(chk, rbin, bins):
 def run(chk):
     chk.trusted = ["Lean 4.33 kernel; axioms propext/Classical.choice/Quot.sound at most", "Mathlib's ordered fields and Real.sqrt",
                    "translator harness/sym (real Vec2/3/4::length bodies incl. lengthTiny: 9/129/513 paths), validated each run by TV "
-                   "(bitwise at float and double) and by evaluating the emitted Lean text at Rat: one witness per reachable leaf of length(), and the "
-                   "entries that call length() composed with the callee's tree",
+                   "(bitwise at float and double, incl. a per-leaf pass over every reachable leaf at both types) and by evaluating the emitted Lean text at Rat: one "
+                   "witness per reachable leaf of length(), and the entries that call length() composed with the callee's tree",
                    "tools/pins/extras_leaf.json, extras_c08.json: WHICH numeric_limits constant is the parameter tmin / tmax of the extracted definitions",
                    "__float128 / libquadmath sqrtq as the oracle of the measured residue; IEEE double as the oracle of the exhaustive float families; "
                    "correctly rounded hardware sqrt and division (cross-checked against the 113-bit oracle on the lattice)"]
     chk.assumptions = ["PARTIAL: ulp accuracy of length(), handling of underflowing / subnormal squares, and absence of NaN/inf in the "
                        "normalize family are NOT proved; they are measured against a 113-bit reference with bounds fixed at the "
-                       "clean-tree maximum + 1 (structured sweep; exhaustive only for the float single-component and all-equal families, thorough tier)",
+                       "clean-tree maximum + 1 (structured sweep; exhaustive only for the float single-component and all-equal families: all floats in the thorough tier, "
+                       "a 1/64 slice rotating with the seed in the quick tier)",
+                       "the ONE proved rounding statement (Props/C08Rounding: direct branch of Vec2::length, relative error <= 2u + u^2) is in the standard model "
+                       "|fl t - t| <= u|t| without underflow/overflow; that IEEE float/double arithmetic satisfies it on normal numbers is assumed, not proved",
                        "theorems are about exact arithmetic over an ordered field with sqrt (and over R with Real.sqrt); the SHAPE theorems are syntactic "
                        "(any function sqrt) and say nothing about rounding either: which branch the float code takes is measured by the branch probe"]
     chk.rule = ("theorems: every vector and all limit parameters tmin, tmax (value: any sqrt with sqrt x * sqrt x = x >= 0; shape: any function). residue: every "
@@ -370,8 +466,9 @@ def run(chk):
                 "2-ulp, random} x {single non-zero component with signed zeros, all equal, mixed magnitudes with gaps 0..full range, signed zeros mixed} x "
                 "Vec2/3/4 x float/double, plus vectors placed around the 2*min threshold (factors down to 1 +- 2^-(p-4)), around norm = min and around the "
                 "dot = max overflow guard, plus constructed vectors whose T-valued dot is exactly 2*min / pred / succ / max, plus all-zero sign patterns; "
-                "classes from the reference; branch probe on every vector; integer lattice at four scales, bit-exact at scale 1; thorough: all 2^31 floats "
-                "in six families")
+                "named adversarial scaled-branch classes (two equal maxima with the rest at the edge of the sum's last bit; subnormal maximum with near-equal "
+                "neighbours); classes from the reference; branch probe on every vector; drift per class / branch / (branch, form); integer lattice at four "
+                "scales, bit-exact at scale 1; six float families: thorough all 2^31 floats, quick the blocks of 2^14 floats with number = seed mod 64")
     bins = troute.build_extractors(chk, [dict(name="sym_leaf", source="sym/sym_leaf.cpp"), dict(name="sym_c08", source="sym/sym_c08.cpp")])
     okr, rbin, rlog = lib.cxx_build("c08_residue", ["corr/c08_residue.cpp"], libs=["-lquadmath"])
     chk.oblige("build:c08_residue", "build", okr, None if okr else rlog[-1500:])
@@ -385,19 +482,21 @@ def run(chk):
         lindex, _ = troute.regenerate(chk, bins["sym_leaf"], "leaf")
         troute.tv(chk, bins["sym_leaf"], "leaf", 2000 if chk.thorough else 400)
         troute.lean_tv(chk, bins["sym_leaf"], "leaf", lindex, n=6 if chk.thorough else 3)
-        tv_leaf_coverage(chk, bins["sym_leaf"], lindex)
+        tv_leaf_coverage(chk, bins["sym_leaf"], lindex, "leaf")
         for d in lindex:
             chk.sample({"entry": d["name"], "paths": d.get("paths")})
     if bins.get("sym_c08") and bins.get("sym_leaf"):
         index, _ = troute.regenerate(chk, bins["sym_c08"], "c08", idx_deps=[leaf_index])
         troute.tv(chk, bins["sym_c08"], "c08", 400 if chk.thorough else 64, idx_deps=[leaf_index])
         troute.lean_tv(chk, bins["sym_c08"], "c08", index, n=6 if chk.thorough else 3, idx_deps=[leaf_index])
+        tv_leaf_coverage(chk, bins["sym_c08"], index, "c08", idx_deps=[leaf_index])
         if lindex and index:
             emitted_text_tv(chk, bins, lindex, index, leaf_index)
     search = make_search(chk, rbin)
     for mod in LEMMAS:
         chk.check_theorems(mod, required=REQUIRED_LEMMAS[mod], search=search)
     chk.check_theorems(PROPS, required=REQUIRED, search=search)
+    chk.check_theorems(ROUNDING, required=ROUNDING_REQUIRED, search=search)
     # SHAPE theorems: own key, found_input only when a separating float input was found
     n0 = len(chk.failures)
     chk.check_theorems(SHAPE, required=SHAPE_REQUIRED, search=make_shape_search(chk, rbin, bins))
@@ -436,8 +535,7 @@ def run(chk):
         elif not (okl and okx):
             chk.fail("lattice", "lattice:run", "lattice harness failed to run", {"output": out[-1500:]}, False)
         residue(chk, rbin)
-        if chk.thorough:
-            exhaustive(chk, rbin)
+        exhaustive(chk, rbin)       # quick: a 1/64 slice rotating with the seed; thorough: every float
     if chk.thorough:
-        for mod in LEMMAS + [PROPS, SHAPE]:
+        for mod in LEMMAS + [PROPS, SHAPE, ROUNDING]:
             chk.leanchecker(mod)
